@@ -40,12 +40,14 @@ class Harness:
     name = 'C04.let'
     mode = 'M'
 
-    def __init__(self, N=4, L=2, kinds=None):
+    def __init__(self, N=4, L=2, kinds=None, via=('bdd',)):
         self.N, self.L = N, L
         self.kinds = kinds or KINDS
+        self.via = list(via)
 
     def install(self):
         self.B = base.import_dd('dd.bdd')
+        self.A = base.import_dd('dd.autoref')
         self.sh = base.Shadow()
         base.std_shadows(self.sh, self.B)
 
@@ -53,10 +55,15 @@ class Harness:
         c = engine.CTX
         N, L = self.N, self.L
         kind = self.kinds[c.choose(len(self.kinds), 'kind')]
+        via = self.via[c.choose(len(self.via), 'via')]
         m = SymMgr(N, 0, L, with_cache=False, with_refs=False)
         m.decl = 'choose' if kind == 'rename' else 'identity'
         m.assume_pre()
         assume_canon_real(m)
+        if via == 'autoref':
+            for k in m.ids:
+                c.assume(z3.Select(m.st0.RP, k) == z3.Select(m.st0.P, k))
+                c.assume(z3.Select(m.st0.RF, k) >= 0)
         bdd = m.install(self.B)
         world = StubWorld(m)
         world.install(bdd)
@@ -99,7 +106,7 @@ class Harness:
 
         def extract(model):
             case = m.extract(model)
-            case['args'] = dict(kind=kind, sel=sel, u=base.ev_int(model, u),
+            case['args'] = dict(kind=kind, sel=sel, via=via, u=base.ev_int(model, u),
                                 gs=[base.ev_int(model, g) for g in gs],
                                 bs=[base.ev_bool(model, b) for b in bs])
             case['harness'] = 'let'
@@ -107,7 +114,15 @@ class Harness:
 
         exc = r = None
         try:
-            r = bdd.let(d, SymInt(u))
+            if via == 'bdd':
+                r = bdd.let(d, SymInt(u))
+            else:
+                from .k6_autoref_ops import make_autoref
+                abdd = make_autoref(self.A, bdd)
+                F = self.A.Function
+                d2 = {k: (F(x, abdd) if isinstance(x, SymInt) else (bool(x) if isinstance(x, SymBool) else x))
+                      for k, x in d.items()}
+                r = abdd.let(d2, F(SymInt(u), abdd)).node
         except Exception as e:
             exc = e
         if exc is not None:
@@ -169,10 +184,19 @@ def replay(case):
     old = {k: concrete.tt(bdd, k) for k in bdd._succ}
     exc = r = None
     try:
-        r = bdd.let(d, a['u'])
+        if a.get('via', 'bdd') == 'bdd':
+            r = bdd.let(d, a['u'])
+        else:
+            import dd.autoref as A
+            from .k6_autoref_ops import make_autoref
+            abdd = make_autoref(A, bdd)
+            for k in bdd._succ:
+                bdd._ref[k] += 1
+            d2 = {k: (A.Function(x, abdd) if kind in ('compose1', 'compose2') else x) for k, x in d.items()}
+            r = abdd.let(d2, A.Function(a['u'], abdd)).node
     except Exception as e:
         exc = e
-    call = f'let({d}, {a["u"]})'
+    call = f'{a.get("via", "bdd")}.let({d}, {a["u"]})'
     obs = dict(outcome='raised:' + type(exc).__name__ if exc else 'returned', result=r)
     if exc is not None:
         return dict(violates=True, key='let/raises', detail=f'{call} raised {exc!r}', observed=obs)
